@@ -28,12 +28,14 @@ Which(t, atts) ==
     LET raws == [j \in 1..Len(t.atts) |-> t.atts[j].raw]
         p0 == Predict({}, t.sc)
         p3 == Predict({"D3"}, t.sc)
+        pc == Predict({CSI}, t.sc)
         Ex(p) == IF t.mode # "sym" THEN "n/a" ELSE IF BytesMatch(p, raws) THEN "exact" ELSE "inexact"
     IN IF Matches(p0, atts, t.outcome) THEN [w |-> "design", e |-> Ex(p0)]
        ELSE IF Matches(p3, atts, t.outcome) THEN [w |-> "D3", e |-> Ex(p3)]
+       ELSE IF Matches(pc, atts, t.outcome) THEN [w |-> CSI, e |-> Ex(pc)]
        ELSE [w |-> "neither", e |-> "n/a"]
 Class(t, j) == IF j = 0 THEN "-"
-               ELSE (IF InClassD3(t.sc, j) THEN "D3" ELSE "")
+               ELSE (IF InClassD3(t.sc, j) THEN "D3" ELSE "") \o (IF InClassCSI(t.sc) THEN CSI ELSE "")
 
 TNext == /\ tid <= Len(Traces)
          /\ LET t == Traces[tid]
